@@ -362,6 +362,8 @@ func c09ExitConditions(c *Ctx, r *Result) {
 		want string
 	}
 	n := 0
+	nSnap := 0
+	lfsExit := NewLockFlows(c)
 	for _, sp := range []spec{
 		{"WaitAll", "no workers, or (all workers idle and no task queued)"},
 		{"JoinAll", "no workers and no task queued"},
@@ -407,6 +409,80 @@ func c09ExitConditions(c *Ctx, r *Result) {
 				countReached = append(countReached, bo)
 			}
 		})
+		// R09d-snapshot: the quantities the exit decision combines are read in one critical
+		// section (one lock held from the first read to the last): read one after the other
+		// under separate locks, "all workers idle" and "queue empty" can each be true at its
+		// own moment while a task is being taken in between
+		if sp.name != "SetWorkerCount" {
+			var reads []ssa.Instruction
+			allInstrs(fn, func(in ssa.Instruction) {
+				call, ok := in.(*ssa.Call)
+				if !ok || !loop[in.Block()] {
+					return
+				}
+				if isLenOf(call, fWorkers) || isLenOf(call, fIdle) || isQueueSize(call) {
+					reads = append(reads, in)
+				}
+			})
+			site := key + "#poll-snapshot"
+			pos := c.Pos(fn.Pos())
+			whyBad := ""
+			lf := lfsExit.Of(fn)
+			if len(reads) < 2 || lf == nil {
+				whyBad = ""
+			} else {
+				sameBlock := true
+				for _, rd := range reads {
+					if rd.Block() != reads[0].Block() {
+						sameBlock = false
+					}
+				}
+				common := ""
+				if sameBlock {
+					lo, hi := instrIndex(reads[0]), instrIndex(reads[0])
+					for _, rd := range reads {
+						if i := instrIndex(rd); i < lo {
+							lo = i
+						} else if i > hi {
+							hi = i
+						}
+					}
+					for p := range lf.ClassOf {
+						all := true
+						for _, rd := range reads {
+							if !lf.MustHoldPath(rd, p, false) {
+								all = false
+							}
+						}
+						if !all {
+							continue
+						}
+						released := false
+						for i := lo; i <= hi; i++ {
+							if op, ok := lockOpOf(reads[0].Block().Instrs[i]); ok && !op.acquire() && op.Path == p {
+								released = true
+							}
+						}
+						if !released {
+							common = p
+						}
+					}
+				}
+				if common == "" {
+					whyBad = "the worker tables and the queue size that decide the exit are not read within one critical section (no lock is held from the first of these reads to the last)"
+				}
+			}
+			if len(reads) >= 2 {
+				nSnap++
+				if whyBad != "" {
+					r.Instance("R09d-snapshot", site, pos, "finding", whyBad, true)
+					r.Report(Finding{Rule: "R09d-snapshot", Site: site, Pos: pos,
+						Msg: key + ": " + whyBad + " — each can hold at its own moment while a worker leaves the idle table and takes a task in between: the call returns while a task accepted before it is still running"})
+				} else {
+					r.Instance("R09d-snapshot", site, pos, "ok", fmt.Sprintf("%d reads under one continuously held lock", len(reads)), true)
+				}
+			}
+		}
 		bad := ""
 		exits := 0
 		o := &PathOracle{}
@@ -460,6 +536,7 @@ func c09ExitConditions(c *Ctx, r *Result) {
 		}
 	}
 	r.Floor("R09d", n, 3)
+	r.Floor("R09d-snapshot", nSnap, 2)
 }
 
 func isCountParam(v ssa.Value, fn *ssa.Function) bool {
